@@ -34,10 +34,16 @@ FLOORS = {'judged': {'quick': 250, 'thorough': 2000}, 'nontrivial': 120,
           'counters': {'misuse_raised': 150, 'interleavings_compared': 60}}
 
 
-def _mk(front, nscen=2):
+def _mk(front, nscen=2, pad=0, zpad=0):
+    """pad / zpad unused decision / random variables declared first shift every index, so that
+    a foreign object whose indices happen to fit the owner's dimensions is also produced."""
     import rsome as rso
     from rsome import ro, dro
     m = ro.Model() if front == 'ro' else dro.Model(nscen)
+    if pad:
+        m.dvar(pad)
+    if zpad:
+        m.rvar(zpad)
     x = m.dvar(3)
     z = m.rvar(2)
     d = {'m': m, 'x': x, 'z': z, 'front': front, 'rso': rso}
@@ -283,6 +289,32 @@ def run_case(spec, ctx):
         except Exception as ex:
             raised = '%s: %s' % (type(ex).__name__, str(ex)[:70])
         feats['stage'] = stage
+        if raised is not None and stage != 'misuse':
+            # refused only while compiling: make sure that is not an accident of the two models
+            # having different sizes
+            for pad, pad1, zpad in [(p2, p1, zp) for p2 in range(0, 9) for p1 in range(0, 9)
+                                    for zp in (0, 1)]:
+                if True:
+                    ctx.count('size_sweep_models')
+                    a2 = _mk(e['f1'], pad=pad1)
+                    b2 = _mk(e['f2'], pad=pad, zpad=zpad)
+                    try:
+                        with warnings.catch_warnings():
+                            warnings.simplefilter('ignore')
+                            e['fn'](a2, b2)
+                            a2['m'].do_math()
+                    except Exception:
+                        continue
+                    return {'status': 'violation',
+                            'mechanism': 'misuse_accepted_when_sizes_fit:' + e['name'],
+                            'detail': {'what': 'misuse compiles silently when the foreign model '
+                                       'has as many variables as the owner expects; with other '
+                                       'sizes it only fails on a dimension error',
+                                       'entry': e['name'], 'owner': e['f1'], 'foreign': e['f2'],
+                                       'owner_pad': pad1, 'foreign_pad': pad,
+                                       'foreign_zpad': zpad,
+                                       'error_otherwise': raised},
+                            'features': feats, 'sig': sig, 'nontrivial': True}
         if raised is None:
             return {'status': 'violation', 'mechanism': 'misuse_accepted:' + e['name'],
                     'detail': {'what': 'misuse did not raise and a program was compiled',
